@@ -459,6 +459,29 @@ pub fn run(cfg: &Config) -> i32 {
         cases.push(("tok/lf".into(), Case::Tok { text: plain.clone(), class: "lf".into() }));
         cases.push(("tok/crlf".into(), Case::Tok { text: tok::render(base, true, false), class: "crlf".into() }));
         cases.push(("tok/with-terminator".into(), Case::Tok { text: tok::render(base, false, true), class: "with-terminator".into() }));
+        // mixed line ends: LF first then CRLF, CRLF first then LF, alternating
+        {
+            let nl = plain.matches('\n').count();
+            for (class, pick) in [("lf-then-crlf", 0usize), ("crlf-then-lf", 1), ("alternating", 2)] {
+                let mut i = 0usize;
+                let mut t = String::with_capacity(plain.len() + nl);
+                for ch in plain.chars() {
+                    if ch == '\n' {
+                        let crlf = match pick {
+                            0 => i >= nl / 2,
+                            1 => i < nl / 2,
+                            _ => i % 2 == 1,
+                        };
+                        if crlf {
+                            t.push('\r');
+                        }
+                        i += 1;
+                    }
+                    t.push(ch);
+                }
+                cases.push((format!("tok/{class}"), Case::Tok { text: t, class: format!("mixed:{class}") }));
+            }
+        }
         let muts = mutate::single_mutations(base, &pool, &mut r, false);
         for m in &muts {
             cases.push((format!("tok/mut:{}", m.kind), Case::Tok { text: tok::render(&m.fields, false, false), class: format!("mut:{}", m.kind) }));
